@@ -478,5 +478,5 @@ v("c14-unfix-cache-plain-dict", "C14", "NODE-KEY-IDENTITY", V + "rules/overlappi
 v("c13-unfix-oneof-wrapped-parent", "C13", "WRAPPED-KIND-TEST", V + "rules/variables_in_allowed_position.py",
   "            parent_type = get_nullable_type(usage.parent_type)", "            parent_type = usage.parent_type")
 v("c05-unfix-failure-allocates", "C05", "ID-LIFECYCLE", E + "incremental/incremental_publisher.py",
-  "            id_ = self._ids.get(group)\n            if id_ is not None:\n                context.completed.append(\n                    CompletedResult(id_, [ensure_graphql_error(event.error)])\n                )\n                del self._ids[group]",
+  "            group_id = self._ids.get(group)\n            if group_id is not None:\n                context.completed.append(\n                    CompletedResult(group_id, [ensure_graphql_error(event.error)])\n                )\n                del self._ids[group]",
   "            context.completed.append(\n                CompletedResult(\n                    self._ensure_id(group), [ensure_graphql_error(event.error)]\n                )\n            )\n            del self._ids[group]")
